@@ -349,7 +349,66 @@ fn gen_der(rng: &mut Rng) -> Req {
     Req::new(format!("c17.der {}", hx(&s)), "der")
 }
 
-fn gen(rng: &mut Rng, n: usize, _tier: &str) -> Vec<Req> {
+/// Exhaustive single-edit neighbourhood of every seed of the text/byte entry points: every prefix,
+/// every single deletion, and at every position the insertion and the replacement of each byte
+/// string of `edits` (ASCII specials, multi-byte characters, a raw continuation byte). JSON and HTML
+/// seeds get every prefix only. Deterministic; part of every run.
+fn neighbourhood(tier: &str, v: &mut Vec<Req>) {
+    const EDITS_QUICK: &[&[u8]] = &[
+        b"\\", b"\"", b";", b"=", b":", b"/", b"%", b"'", b"[", b"]", b" ", b"\0", b"*", b"?", b"#", b"@",
+        "\u{e9}".as_bytes(), "\u{10000}".as_bytes(), b"\x80",
+    ];
+    const EDITS_MORE: &[&[u8]] = &[
+        b"!", b"$", b"&", b"+", b",", b"-", b".", b"<", b">", b"^", b"_", b"`", b"{", b"|", b"}", b"~", b"\n", b"\r",
+        b"\t", b"\x7f", b"0", b"a", b"A", b"\xff", b"\xc3", b"\xe2\x82", "\u{20ac}".as_bytes(),
+    ];
+    let mut edits: Vec<&[u8]> = EDITS_QUICK.to_vec();
+    if tier == "thorough" {
+        edits.extend_from_slice(EDITS_MORE);
+    }
+    for e in entries::ENTRIES {
+        for s in seeds::seeds(e.name) {
+            let cls = format!("nbh.{}", e.name);
+            let mut push = |b: Vec<u8>| {
+                if e.name == "hdr.cd" {
+                    // the modelled parser is compared with the Lean model on the same neighbourhood
+                    v.push(Req::new(format!("c17.cd {}", hx(&b)), "nbh.cd-model"));
+                }
+                if e.name == "sig.der" {
+                    v.push(Req::new(format!("c17.der {}", hx(&b)), "nbh.der-model"));
+                }
+                v.push(Req::new(format!("c17.ep {} {}", e.name, hx(&b)), cls.clone()))
+            };
+            for i in 0..s.len() {
+                push(s[..i].to_vec());
+            }
+            if e.json || e.html || s.len() > 160 {
+                continue;
+            }
+            for i in 0..s.len() {
+                let mut d = s.to_vec();
+                d.remove(i);
+                push(d);
+            }
+            for ed in &edits {
+                for i in 0..=s.len() {
+                    let mut ins = s[..i].to_vec();
+                    ins.extend_from_slice(ed);
+                    ins.extend_from_slice(&s[i..]);
+                    push(ins);
+                    if i < s.len() {
+                        let mut rep = s[..i].to_vec();
+                        rep.extend_from_slice(ed);
+                        rep.extend_from_slice(&s[i + 1..]);
+                        push(rep);
+                    }
+                }
+            }
+        }
+    }
+}
+
+fn gen(rng: &mut Rng, n: usize, tier: &str) -> Vec<Req> {
     let mut v = Vec::new();
     // every seed unmodified first
     for e in entries::ENTRIES {
@@ -357,6 +416,7 @@ fn gen(rng: &mut Rng, n: usize, _tier: &str) -> Vec<Req> {
             v.push(Req::new(format!("c17.ep {} {}", e.name, hx(s)), format!("seed.{}", e.name)));
         }
     }
+    neighbourhood(tier, &mut v);
     for _ in 0..n {
         v.push(match rng.below(10) {
             0 => gen_cd(rng),
